@@ -439,6 +439,10 @@ func replayC03(env *core.Env, a []json.RawMessage) {
 }
 
 var c03Aliasing = []string{
+	"%codes.isDistinct()", "%codes.tail().isDistinct()", "%codes.skip(1).isDistinct()", "%codes.distinct()", "%codes.tail().distinct()", "%codes.union(%codes)", "%codes.combine(%codes)", "%codes.exclude('a')", "%codes.intersect(%codes)",
+	"%codes.skip(1).subsetOf(%codes)", "%codes.supersetOf(%codes.tail())", "%codes.join(',')", "%codes.where($this > 'a')", "%codes.select($this & 'x')", "%codes.allTrue()", "%codes.count()", "%codes.take(4).isDistinct()", "%codes.take(3).distinct().count()",
+	"%fcodes.isDistinct()", "%fcodes.tail().isDistinct()", "%fcodes.distinct()", "%fcodes.union(%fcodes)", "%fcodes.exclude('a')", "%fcodes.intersect(%codes)", "%fcodes.subsetOf(%codes)", "%fcodes.skip(1).supersetOf(%fcodes)", "%fcodes.join('-')", "%codes | %fcodes",
+	"%codes.tail().tail().isDistinct()", "%codes.skip(2).take(3).isDistinct()", "%multi.isDistinct()", "%fprims.isDistinct()", "%fprims.tail().isDistinct()", "%codes.aggregate($this & $total, '')", "%codes.repeat($this)", "%codes.indexOf('a')", "%codes.first().indexOf('c')",
 	"%e & 'x'", "'x' & %e", "%e & %e", "%sub & 'x'", "%emptyc & 'x'", "%e.first() & 'y'", "%sub.family & 'x'",
 	"%kids.tail()", "%kids.skip(1)", "%kids.take(1)", "%kids.skip(1).take(1)", "%kids.first()", "%kids.last()", "%sub.tail()", "%sub.take(5)",
 	"%kids.where(true)", "%kids.where(false)", "%kids.select($this)", "%e.select($this)", "%kids.select(children())", "%kids.all(true)", "%kids.exists($this.exists())",
@@ -543,9 +547,55 @@ func c03NilMembers(env *core.Env) {
 	}
 }
 
+// c03FailedRuns: a compiled expression answers the same after many evaluations that failed (an option that is
+// refused, a variable that is missing, an operation that errors) as before them.
+func c03FailedRuns(env *core.Env) {
+	defer env.In("failedruns")()
+	env.Case()
+	in := []fhir.Resource{gen.StdPatient()}
+	okOpt := []fhirpath.EvaluateOption{evalopts.EnvVariable("v", system.Integer(2))}
+	fails := [][]fhirpath.EvaluateOption{
+		{evalopts.EnvVariable("context", system.Integer(1))},
+		{evalopts.EnvVariable("v", 42)},
+		{evalopts.EnvVariable("v", system.Integer(1)), evalopts.EnvVariable("v", system.Integer(2))},
+		{}, // %v missing: evaluation error
+		{evalopts.EnvVariable("v", system.String("x"))},
+	}
+	for _, src := range []string{"Patient.name.given.count() + %v", "Patient.name.where(given.count() >= %v).family", "%v + 1", "Patient.name.select(given.first() & 'x').take(%v)", "iif(%v > 1, Patient.id, {})"} {
+		ex, cr := fx.Compile(env, src)
+		if ex == nil {
+			env.Violatef("C03/failed-runs/compile", "`%s` => %s", src, cr.Short())
+			continue
+		}
+		r0 := fx.Evaluate(env, ex, in, okOpt...)
+		failed := 0
+		for round := 0; round < 150; round++ {
+			rf := fx.Evaluate(env, ex, in, fails[round%len(fails)]...)
+			if rf.IsPanic() {
+				break
+			}
+			if rf.IsError() {
+				failed++
+			}
+			if round%25 == 24 || round == 64 || round == 65 {
+				r1 := fx.Evaluate(env, ex, in, okOpt...)
+				env.Cover("evaluated-after-failed-evaluations")
+				if !fx.Same(r0, r1) {
+					env.Violatef("C03/expression-changed-by-failed-evaluations", "`%s`: first evaluation => %s; after %d failed evaluations of the same compiled expression => %s", src, trunc(r0.Short(), 100), failed, trunc(r1.Short(), 100))
+					break
+				}
+			}
+		}
+		env.Distinct(fmt.Sprintf("failed-runs|%s|%d", src, failed))
+	}
+}
+
 func runC03(env *core.Env) {
 	if env.Shard == 2%env.NShards {
 		c03NilMembers(env)
+	}
+	if env.Shard == 3%env.NShards {
+		c03FailedRuns(env)
 	}
 	types := gen.ResourceTypes()
 	names := funcNames()
@@ -566,7 +616,7 @@ func runC03(env *core.Env) {
 	}
 	// every function of the table x receivers x non-literal / aliasing arguments (arity 0..3): a function that
 	// writes into its argument nodes, or adopts an argument's collection as its result buffer, shows here
-	recvs := []string{"%fprims", "%tcoll", "%kids", "%names", "%multi", "%fstr", "'5'", "5", "%r", "%e", "%sub", "Patient.name"}
+	recvs := []string{"%codes", "%fprims", "%tcoll", "%kids", "%names", "%multi", "%fstr", "'5'", "5", "%r", "%e", "%sub", "Patient.name"}
 	a1 := []string{"%fprims", "%fprims.skip(1)", "%sub", "%kids.take(1)", "%e", "%kids", "%fstr", "%ucum", "%fint", "%fbool", "$this", "%context.id", "%name", "%multis.first()", "1", "'a'", "%multi.take(1)", "%kids.skip(1)"}
 	a2 := []string{"%sub", "%e", "%fstr", "%fint", "$this", "%multi.take(1)"}
 	a3 := []string{"%sub", "%fstr", "%fint"}
